@@ -239,20 +239,33 @@ func run(env *simrt.Env, sci interface{}) {
 			}
 		}
 	}
-	// burst + rate bound over every sub-interval
+	// burst + rate bound over every sub-interval. Settings in force for an interval: the
+	// filter decides a forward while it processes an arrival; everything it has read (rate,
+	// burst, refill) it read after that arrival was handed in. t0(i) = hand-in stamp of the
+	// latest arrival known to have been received before forward i (a producer may record
+	// its return late, which only widens the window). Tokens held at forward i were clamped
+	// to a burst value read in [t0(i), forward i], so the largest burst and rate in force
+	// anywhere in [t0(i), forward j] bound the interval i..j.
+	t0 := func(fstamp uint64) uint64 {
+		var best uint64
+		for _, s := range sents {
+			if s.ret != 0 && s.ret < fstamp && s.inv > best {
+				best = s.inv
+			}
+		}
+		return best
+	}
 	for i := range got {
 		sum := 0
+		from := t0(got[i].stamp)
 		for j := i; j < len(got); j++ {
 			sum += len(got[j].data)
 			dt := got[j].at.Sub(got[i].at)
-			rate := maxInForce(rates, got[i].stamp, got[j].stamp)
-			// tokens accumulated under an earlier, larger bucket may legitimately still be
-			// there after the bucket was made smaller (and a forward decided before the
-			// change may be stamped after it): the largest burst set so far is allowed
-			burst := maxInForce(bursts, 0, got[j].stamp)
+			rate := maxInForce(rates, from, got[j].stamp)
+			burst := maxInForce(bursts, from, got[j].stamp)
 			bound := float64(burst) + float64(rate)/8*dt.Seconds() + 1
 			if float64(sum) > bound {
-				env.Fail("C15/burst-bound-exceeded", "datagrams #%d..#%d (%d bytes) were forwarded within %v; burst %d B + rate %d bit/s * dt allows %.0f bytes", i, j, sum, dt, burst, rate, bound)
+				env.Fail("C15/burst-bound-exceeded", "datagrams #%d..#%d (%d bytes) were forwarded within %v; the largest burst (%d B) and rate (%d bit/s) in force since the arrival that triggered #%d allow %.0f bytes", i, j, sum, dt, burst, rate, i, bound)
 				return
 			}
 		}
